@@ -373,7 +373,8 @@ FASTOR_INLINE bool isequal(
         const double Tol=PRECI_TOL) {
     if ( DIMS0 != DIMS1) return false;
     if ( _src0.self().size() != _src1.self().size()) return false;
-    return all_of( abs(_src0.self() - _src1.self()) < Tol);
+    // <= and not <: for integral tensors the tolerance is converted to 0
+    return all_of( abs(_src0.self() - _src1.self()) <= Tol);
 }
 template<class Derived0, size_t DIMS0, class Derived1, size_t DIMS1,
     enable_if_t_<requires_evaluation_v<Derived0> || requires_evaluation_v<Derived1>,bool> = false>
@@ -383,7 +384,8 @@ FASTOR_INLINE bool isequal(
         const double Tol=PRECI_TOL) {
     if ( DIMS0 != DIMS1) return false;
     if ( _src0.self().size() != _src1.self().size()) return false;
-    return all_of( abs(evaluate(_src0.self() - _src1.self())) < Tol);
+    // <= and not <: for integral tensors the tolerance is converted to 0
+    return all_of( abs(evaluate(_src0.self() - _src1.self())) <= Tol);
 }
 //----------------------------------------------------------------------------------------------------------//
 //----------------------------------------------------------------------------------------------------------//
